@@ -87,10 +87,10 @@ def ofOpt {α : Type} (o : Option α) (k : ErrKind) (st : St) : R α :=
 /-- `unroll_type`: expected side first, then wire side; one unit of cost per name unfolded -/
 def unroll (env : Env) (fuel : Nat) (w e : Ty) (st : St) : R (Ty × Ty) :=
   let stepE : R Ty :=
-    if Sub.isName e then (addCost st 1).bind fun _ s => ofOpt (env.trace fuel e) .other s
+    if Sub.isName e then (addCost st 1).bind fun _ s => ofOpt (env.trace fuel e) .limit s
     else .ok e st
   stepE.bind fun e' s1 =>
-    if Sub.isName w then (addCost s1 1).bind fun _ s2 => (ofOpt (env.trace fuel w) .other s2).map fun w' => (w', e')
+    if Sub.isName w then (addCost s1 1).bind fun _ s2 => (ofOpt (env.trace fuel w) .limit s2).map fun w' => (w', e')
     else .ok (w, e') s1
 
 /-- `check!(expect == T && wire == T)`, `add_cost(c)`, read -/
@@ -193,8 +193,16 @@ def deOptCase (env : Env) (fuel : Nat) (recv : Ty → Ty → St → R Val) (w e2
        else .err .malformed)
   | _ =>
     (match env.trace fuel e2 with
-     | none => .err .other
+     | none => .err .limit
      | some e2' => recv w e2' s1)
+
+/-- the big-number shortcut of `deserialize_seq`: the primitive that is on the wire, when it applies -/
+def bigPrimOf (ee wire : Ty) : Option Prim :=
+  match ee, wire with
+  | .prim .nat, .prim .nat => some .nat
+  | .prim .int, .prim .int => some .int
+  | .prim .int, .prim .nat => some .nat
+  | _, _ => none
 
 /-- `vec` whose expected type is not a blob: `add_cost(1)` was charged by the caller -/
 def deVecCase (env : Env) (vis : Visitor) (fuel : Nat) (dAny : Ty → Ty → St → R Val) (dIgn : Ty → St → R Val)
@@ -202,7 +210,7 @@ def deVecCase (env : Env) (vis : Visitor) (fuel : Nat) (dAny : Ty → Ty → St 
   match w with
   | .vec ww =>
     (match env.trace fuel ww with
-     | none => .err .other
+     | none => .err .limit
      | some wire =>
        (rd readLenDe s1).bind fun n s2 =>
          match exactPrim ee wire with
@@ -213,12 +221,7 @@ def deVecCase (env : Env) (vis : Visitor) (fuel : Nat) (dAny : Ty → Ty → St 
              if n * size > s3.input.length then .err .eof
              else (iterV (fun s => rd (decPrim p) s) n s3).map Val.vec
          | none =>
-           let big : Option Prim := match ee, wire with
-             | .prim .nat, .prim .nat => some .nat
-             | .prim .int, .prim .int => some .int
-             | .prim .int, .prim .nat => some .nat
-             | _, _ => none
-           match big with
+           match bigPrimOf ee wire with
            | some wp =>
              if n * 3 > usizeMax then .err .other else
              (addCost s2 (n * 3)).bind fun _ s3 =>
@@ -248,12 +251,12 @@ def deVariantCase (vis : Visitor) (dAny : Ty → Ty → St → R Val) (dIgn : Ty
               let isUnit : Bool := match et with | .prim .null => true | _ => false
               if vis = .idl ∧ isUnit then
                 -- unit_variant: check!(expect == Null && wire == Null)
-                (if wt = .prim .null then (addCost s4 1).map fun _ => .variant el .null 0
+                (if wt = .prim .null then (addCost s4 1).map fun _ => .variant el .null idx
                  else subErr s4)
               else
                 (addCost s4 1).bind fun _ s5 =>
                   if vis = .ignored then (dIgn wt s5).map fun _ => .null
-                  else (dAny wt et s5).map fun v => .variant el v 0
+                  else (dAny wt et s5).map fun v => .variant el v idx
   | _ => subErr s1
 
 /-- `func` reference: `check_subtype` was done by the caller -/
@@ -387,7 +390,7 @@ def deFields (env : Env) (vis : Visitor) : Nat → List FieldStep → St → Lis
               deFields env vis fuel rest s4 ((l, v) :: acc)
       | .expectOnly l et =>
         (match env.trace fuel et with
-         | none => .err .other
+         | none => .err .limit
          | some et' =>
            if !(Sub.isOptLikeTy et') then subErr s1 else
            (addCost s1 (labelKeyCost l)).bind fun _ s2 =>
